@@ -254,6 +254,7 @@ class AssignCase(BaseCase):
 
         fn = {'kaisa': assign.check_kaisa,
               'kaisa_fractions': assign.check_fractions,
+              'hashseed': assign.check_hashseed,
               'neox_assign': assign.check_neox_assignment}[plan['kind']]
         fn(plan, bad, oc.stats)
         oc.n_sims = 1
@@ -274,7 +275,7 @@ class AssignCase(BaseCase):
 class C06(AssignCase):
     pid = 'C06'
     expected_probes = ['assignments_built', 'layer_rank_checks',
-                       'fractions_tried']
+                       'fractions_tried', 'hashseed_comparisons']
     rule = ('every rank of a world builds its own KAISAAssignment through '
             'the real constructor with a recording group_func; relations of '
             'the statement checked through public query methods and '
@@ -287,7 +288,7 @@ class C06(AssignCase):
     def fixed_plans(self, tier: str) -> list[dict[str, Any]]:
         from simkfac import assign
 
-        return assign.kaisa_enum(tier)
+        return assign.kaisa_enum(tier) + assign.hashseed_plans('kaisa')
 
     def gen(self, rng: random.Random, tier: str) -> dict[str, Any]:
         from simkfac import assign
@@ -297,7 +298,8 @@ class C06(AssignCase):
 
 class C12(AssignCase):
     pid = 'C12'
-    expected_probes = ['assignments_built', 'layer_rank_checks']
+    expected_probes = ['assignments_built', 'layer_rank_checks',
+                       'hashseed_comparisons']
     rule = ('every rank of a pipe x data x model topology builds its own '
             'GPTNeoXAssignment; agreement inside stages, membership '
             'relations of factor worker / gradient source / gradient '
@@ -310,7 +312,7 @@ class C12(AssignCase):
     def fixed_plans(self, tier: str) -> list[dict[str, Any]]:
         from simkfac import assign
 
-        return assign.neox_enum(tier)
+        return assign.neox_enum(tier) + assign.hashseed_plans('neox')
 
     def gen(self, rng: random.Random, tier: str) -> dict[str, Any]:
         from simkfac import assign
